@@ -138,7 +138,7 @@ RTP_VOID = ["rtp-unknown-ssrc-and-pt", "rtp-short", "rtp-bad-version", "rtp-ext-
             "rtcp-truncated", "rtcp-remb-bad-fci", "rtcp-nack-huge", "rtcp-sdes-truncated", "rtcp-bye-weird",
             "rtcp-unknown-type", "rtcp-compound-mixed"]
 RTP_CHANGING = ["rtp-live-absurd-seq", "rtp-live-absurd-ts", "rtp-live-bad-codec-payload", "rtx-short", "rtcp-feedback-live",
-                "rtcp-remb-live-bad-fci", "rtcp-sr-live"]
+                "rtcp-remb-live-bad-fci", "rtcp-sr-live", "rtp-many-sources"]
 AUDIO = ["audio-empty-payload", "audio-one-byte-payload", "audio-garbage-payload", "audio-truncated-payload",
          "audio-oversized-payload"]
 VIDEO_REAL = ["video-undecodable-frame"]
@@ -1108,6 +1108,9 @@ class HostileWorld(MediaBase):
         if cls == "stream-fragment-reset-reopen":
             await self.inject_reset_reopen(k)
             return
+        if cls == "rtp-many-sources":
+            await self.inject_many_sources(k)
+            return
         if cls in SCTP_VOID or cls in SCTP_CHANGING:
             self._borrowed_tsn = False
             data, changing = self.build_sctp(cls, k)
@@ -1151,6 +1154,41 @@ class HostileWorld(MediaBase):
             self.forged.pop(data, None)
             self.probes["not_protectable"] += 1
             self.fabric.loop.call_soon(self.vconn.inject, data, context=pair.ctx["V"])
+
+    async def inject_many_sources(self, k):
+        """Well-formed media packets of the live payload type from hundreds of sources nobody announced (each with a
+        send-time extension, as the live stream's packets have): each is routed to the video receiver by payload type.
+        State-changing (the receiver learns the sources), so only 'nothing raises, nothing hangs, the transport stays
+        up' is judged - while the live stream goes on and the receiver keeps reporting."""
+        pair = self.pair
+        if not self.media_started or self.dead:
+            self.probes["many_sources_skipped"] += 1
+            return
+        r = self.rng(k)
+        n = r.choice([40, 200, 256, 300, 400])
+        base = r.choice([0x20000000, 0xFFFFFF00, 1])
+        gap = r.choice([0.0005, 0.002, 0.01])
+        self.log.add("inject", "rtp-many-sources", n, True)
+        for i in range(n):
+            if self.dead:
+                break
+            ext = struct.pack("!HH", 0xBEDE, 1) + bytes([(2 << 4) | 2]) + bytes(r.randrange(256) for _ in range(3))
+            d = struct.pack("!BBHLL", 0x90, 96, r.randrange(65536), r.getrandbits(32), (base + i) & 0xFFFFFFFF) + ext + b"\x10" + bytes(
+                r.randrange(256) for _ in range(r.choice([1, 10, 100])))
+            if i < 3:
+                # (the cost meters are expensive per datagram; these packets are all alike: the first three are metered)
+                self.forged[d] = "rtp-many-sources"
+            try:
+                await self.loop.create_task(pair.dtls["P"]._send_rtp(d), context=pair.ctx["P"])
+            except Exception:  # noqa
+                self.forged.pop(d, None)
+                self.probes["inject_send_failed"] += 1
+                return
+            await asyncio.sleep(gap)
+        self.probes["many_sources_bursts"] += 1
+        # (the live stream goes on for a while: feedback that lists the sources seen is due within that time)
+        await asyncio.sleep(r.choice([1.5, 3.0]))
+        self.check_alive("after rtp-many-sources (%d sources)" % n)
 
     async def inject_reset_reopen(self, k):
         """A stream's life in four datagrams from the authenticated peer: the first fragment of a message that is never
